@@ -443,55 +443,81 @@ func c06Execute(run *kernel.Run) {
 	guard(run, "C06", "merkle tree / hash store operation", func() { c06Run(run, dir, sig) })
 }
 
+// fork copies the hash file of w as it is on disk right now and opens the copy with (size, hashes):
+// exactly what "the process stops here and restarts from the persisted state" leaves behind. The
+// reference leaves and the durable snapshot are copied; the original world is untouched.
+func (w *c06World) fork(path string, size uint32, hashes []pcom.Uint256) (*c06World, bool) {
+	data, err := os.ReadFile(w.path)
+	if err != nil {
+		panic(err)
+	}
+	if err := os.WriteFile(path, data, 0o644); err != nil {
+		panic(err)
+	}
+	nw := &c06World{run: w.run, quiet: true, verifier: w.verifier, path: path, sig: w.sig, ref: w.ref.clone()}
+	nw.durSize, nw.durHash = w.durSize, append([]pcom.Uint256(nil), w.durHash...)
+	if !nw.reopenWith(size, hashes, "reopen of the enumerated case") {
+		return nw, false
+	}
+	return nw, true
+}
+
 func c06Run(run *kernel.Run, dir string, sig *sigAcc) {
 	steps := run.Plan.Steps
-	// ---- baseline: the plan as written, full checks, traced
+	recoverLost := run.Plan.C("recover", 0) == 1
+	enumPath := filepath.Join(dir, "enum.db")
+	// The plan as written runs on `base` (full checks, traced). After EVERY step p the fault enumeration
+	// forks the on-disk state twice - {close+reopen with the current state, crash: reopen with the last
+	// persisted (size, hashes) while the file is longer} - and lets each fork continue with the rest of the
+	// plan (all of it for histories of up to 80 steps; otherwise the next max(60, 2*lost+16) steps, enough to
+	// overwrite the stale tail and go beyond it), one more append and a final round of proofs.
 	base := &c06World{run: run, verifier: merkle.NewMerkleVerifier(), sig: sig}
 	base.openFresh(dir, "base")
-	for i, st := range steps {
-		run.StepNo = i
+	defer base.close()
+	cases, evals := 0, 0
+	for p, st := range steps {
+		run.StepNo = p
 		run.Steps++
-		if !base.step(i, st, true) {
-			base.close()
+		if !base.step(p, st, true) {
 			return
 		}
-		if i%8 == 7 {
+		if p%8 == 7 {
 			r := base.tree.Root()
 			run.State(r[:])
 		}
-	}
-	base.close()
-	finalRoot := base.ref.root(base.ref.size())
-	evals := base.evals
-	sig.add("base:%d:%x", base.ref.size(), finalRoot)
-	// ---- fault enumeration: every position x {clean reopen, crash with the older persisted state}
-	cases := 0
-	recoverLost := run.Plan.C("recover", 0) == 1
-	for p := 0; p < len(steps); p++ {
 		for _, kind := range []string{"reopen", "crash"} {
-			w := &c06World{run: run, quiet: true, verifier: base.verifier, sig: sig}
-			w.openFresh(dir, "enum")
-			ok := true
+			var w *c06World
+			var ok bool
 			var lost [][]byte
-			for i := 0; i < len(steps) && ok; i++ {
-				run.StepNo = i
-				st := steps[i]
-				if st.Op != "proofs" { // enumerated executions check proofs once, at the end
-					ok = w.step(i, st, false)
+			if kind == "reopen" {
+				w, ok = base.fork(enumPath, base.tree.TreeSize(), base.tree.Hashes())
+				if ok {
+					w.persist()
 				}
-				if ok && i == p {
-					if kind == "crash" {
-						lost = append([][]byte(nil), w.ref.leaves[min(int(w.durSize), w.ref.size()):]...)
-					}
-					ok = w.step(i, kernel.Step{Op: kind}, false)
-					if ok && kind == "crash" && recoverLost {
-						// the ledger's recovery re-appends the lost block hashes
-						for _, d := range lost {
-							w.tree.Append(d)
-							w.ref.add(d)
-						}
-						ok = w.checkRoot("after re-appending the lost leaves")
-					}
+			} else {
+				w, ok = base.fork(enumPath, base.durSize, base.durHash)
+				if ok {
+					lost = append([][]byte(nil), w.ref.leaves[min(int(w.durSize), w.ref.size()):]...)
+					w.ref.truncate(int(w.durSize))
+				}
+			}
+			ok = ok && w.checkRoot("after the enumerated "+kind)
+			if ok && kind == "crash" && recoverLost {
+				// the ledger's recovery re-appends the lost block hashes
+				for _, d := range lost {
+					w.tree.Append(d)
+					w.ref.add(d)
+				}
+				ok = w.checkRoot("after re-appending the lost leaves")
+			}
+			limit := len(steps)
+			if len(steps) > 80 {
+				limit = min(len(steps), p+1+max(60, 2*len(lost)+16))
+			}
+			for i := p + 1; i < limit && ok; i++ {
+				run.StepNo = i
+				if steps[i].Op != "proofs" { // enumerated executions check proofs once, at the end
+					ok = w.step(i, steps[i], false)
 				}
 			}
 			if ok {
@@ -510,9 +536,9 @@ func c06Run(run *kernel.Run, dir string, sig *sigAcc) {
 				}
 			}
 			w.close()
+			run.StepNo = p
 			if !ok {
 				run.Logf("enumerated case: %s injected after step %d (%s)", kind, p, steps[p])
-				// make the failing case replayable on its own: record which injection failed
 				return
 			}
 			cases++
@@ -524,11 +550,12 @@ func c06Run(run *kernel.Run, dir string, sig *sigAcc) {
 			} else {
 				run.Fault("enum_close_reopen")
 			}
-			if !recoverLost || kind != "crash" {
-				sig.add("%d:%s:%x", p, kind, w.ref.root(w.ref.size()))
-			}
+			sig.add("%d:%s:%x", p, kind, w.ref.root(w.ref.size()))
 		}
 	}
+	evals += base.evals
+	finalRoot := base.ref.root(base.ref.size())
+	sig.add("base:%d:%x", base.ref.size(), finalRoot)
 	run.Logf("baseline size %d root %x; %d enumerated fault cases ok", base.ref.size(), finalRoot, cases)
 	run.Probes["__evals"] = max(1, cases+1)
 	run.Probes["proof_checks"] += evals
@@ -549,13 +576,13 @@ func init() {
 		ID: "C06", Level: "fault_enumeration", Engine: engineName,
 		Rule: "history = append sequence of 0..70 leaves (thorough: up to 600; 32-byte block hashes, or lengths 0/1/31/33/64/65, optionally from a 4-element id space so that leaves repeat) interleaved with GetRootWithNewLeaf/GetRootWithNewLeaves predictions (0-5 leaves), predict-then-append, " +
 			"Marshal/UnMarshal (in place and into a new tree), store-less reload from (size, hashes), persist, clean close+reopen and crash-with-older-persisted-state steps, ended by the full (leaf, size) and (m, n) proof grid up to size 40 (sampled above). " +
-			"The history is executed as written on a tree over merkle.NewFileHashStore on a real file, and then re-executed on a fresh file once for EVERY step position p and both fault kinds {close+reopen, crash: reopen with the last persisted (size, hashes) while the file is longer} injected after step p " +
-			"(for half of the histories the lost leaves are re-appended first, as ledger recovery does), followed by one more append and proofs of every leaf / every old size against the final tree (sampled above size 40). " +
+			"The history is executed as written on a tree over merkle.NewFileHashStore on a real file; after EVERY step p the on-disk state is forked (byte copy of the hash file) for both fault kinds {close+reopen, crash: reopen with the last persisted (size, hashes) while the file is longer} " +
+			"and each fork continues with the rest of the history (all of it up to 80 steps, else the next max(60, 2*lost+16) steps; for half of the histories the lost leaves are re-appended first, as ledger recovery does), followed by one more append and proofs of every leaf / every old size against the final tree (sampled above size 40). " +
 			"Oracle: naive recursive RFC 6962 MTH/PATH/PROOF; every proof must equal the reference and be accepted by MerkleVerifier / MerkleProve. evaluations = executed histories (baseline + enumerated fault cases); non-trivial = at least 3 appends; distinct by the roots reached in all cases",
 		Real:        []string{"merkle.CompactMerkleTree (Append, Root, GetRootWithNewLeaf(s), Marshal/UnMarshal, InclusionProof, MerkleInclusionLeafPath, ConsistencyProof)", "merkle file hash store on a real file (tmpfs)", "merkle.MerkleVerifier, merkle.MerkleProve"},
 		Stub:        []string{"the ledger's state batch that persists (size, hashes) is modelled by an in-memory snapshot taken at 'persist' steps"},
 		Assumptions: []string{"process-crash model: a completed hash-file write survives (Append syncs), the persisted (size, hashes) is never newer than the file", "consistency proofs from size 0 are only required to be accepted (RFC 6962 defines PROOF for m >= 1)", "SHA-256 collision resistance"},
-		QuickRuns:   320, ThoroughRuns: 16000, QuickCap: 40, ThoroughCap: 900,
+		QuickRuns:   320, ThoroughRuns: 6000, QuickCap: 40, ThoroughCap: 900,
 		RequiredProbes: []string{"enum_crash_with_lost_appends", "enum_close_reopen", "reopen_with_longer_file", "prediction_then_append", "tree_larger_than_grid", "empty_tree", "close_reopen", "crash_after_append_before_persist"},
 		Exhaustive:     true,
 		Generate:       c06Generate,
